@@ -13,7 +13,7 @@ PROPS = {
              "(elastic / fixed TTL / fixed Never, mixed) + a history of about 20 steps (thorough 30) drawn as a shrinkable list: create/delete(terminating)/sandbox-exit/gone per pod "
              "with a drawn node (same name, new UID, same or other node), ReconcilePod(name), ReconcilePodENI(name), gcCR, gcSecondary, gcMember, each reconcile step with an optional "
              "cloud fault mask (Create/Attach/Detach/Delete per interface slot, Describe, DescribeVSwitch), API fault mask (Get pod/node/record, List, Create, Update, Patch, status Update/Patch, Delete; "
-             "internal error or conflict) and an optional action executed INSIDE the step's first cloud call (pod leaves, or the other controller runs); then faults off and 8 settle rounds. "
+             "internal error or conflict) and an optional action executed INSIDE the step's first cloud call (pod leaves / appears, the other controller runs, or both: pod gone + ReconcilePod while ReconcilePodENI is inside AttachNetworkInterface); cloud fault bits are drawn from the calls the step kind can issue; additionally an optional cloud outage (one call kind + interface slot fails during a window of steps) and up to 4 entries of the form: the n-th Delete/Detach call of the history fails; then faults off and 8 settle rounds. "
              "Non-trivial = the history recreates a pod under a used name, or a fault hits between interface creation and record creation (rollback runs), or a pod leaves while its record is "
              "Initial/Binding (deletion racing attachment). distinct = distinct scenario hash",
         assumptions=[
